@@ -168,6 +168,12 @@ class SimulatorImaging:
 
         image = Array2D(values=image, mask=mask)
 
+        # `self.psf` is already normalized if `normalize_psf=True`; the dataset must keep exactly the PSF that
+        # produced the data (re-normalizing a PSF input with `normalize_psf=False` makes dataset and data inconsistent).
         return Imaging(
-            data=image, psf=self.psf, noise_map=noise_map, check_noise_map=False
+            data=image,
+            psf=self.psf,
+            noise_map=noise_map,
+            check_noise_map=False,
+            use_normalized_psf=False,
         )
